@@ -2,7 +2,7 @@ CFG = dict(
     lean_modules=["SaramaVerif.Model.ProduceSet", "SaramaVerif.Props.C04", "SaramaVerif.Bridge.C04"],
     lean_support=["SaramaVerif.GoSem", "SaramaVerif.Gen.C04"],
     model="C04",
-    overlay=["c16"],   # harness/overlay/c16_produceset.go serves both checks
+    overlay=["c16", "sim"],   # harness/overlay/c16_produceset.go serves both checks
     required_theorems=[
         "Props.C04.reach_ainv", "Props.C04.msgs_records_aligned", "Props.C04.renumber_length", "Props.C04.renumber_get",
         "Props.C04.reqVersion_ge3_iff", "Props.C04.record_batch_offset_deltas", "Props.C04.wrapper_relative_offsets",
